@@ -56,6 +56,16 @@ func permutedTwin(t *rapid.T, c *gen.DocCase) (*jsonapi.Document, *jsonapi.URL, 
 		doc.Meta = nil
 	}
 
+	if c.Doc.Resources != nil {
+		doc.Resources = map[string]map[string]struct{}{}
+		for k, v := range c.Doc.Resources {
+			doc.Resources[k] = map[string]struct{}{}
+			for k2 := range v {
+				doc.Resources[k][k2] = struct{}{}
+			}
+		}
+	}
+
 	switch c.DataKind {
 	case "resource":
 		doc.Data = tw(c.Primary[0], "p")
